@@ -322,29 +322,58 @@ def facilitiesCheck (o : Origin) (structName : Str) (pump runtime : Bool) : Opti
     else if !runtime then some (.runtimeError (structName ++ L ": Dezyne runtime missing (dzn::runtime)"))
     else none
 
-/-- the facilities after member initialisation -/
-def facInfo (o : Origin) (pump runtime extra : Bool) : FacInfo :=
+/-- what the member-initialiser list of the generated constructor does about the facilities,
+    read from the wiring IR (`ir.mil` is the list the generator rendered into the source file) -/
+structure MilFacts where
+  checks : Bool            -- some initialiser runs `FacilitiesCheck(<locator argument>)`
+  cloneSet : Bool          -- m_locator(std::move(FacilitiesCheck(prototypeLocator).clone().set(m_runtime).set(m_dispatcher)))
+  encOwn : Bool            -- m_encapsulee(m_locator)
+  encProto : Bool          -- m_encapsulee(locator)
+  dispFromLocator : Bool   -- m_dispatcher(FacilitiesCheck(locator).get<dzn::pump>())
+  deriving DecidableEq, Repr, Inhabited
+
+def milFacts (ir : ShellIR) : MilFacts :=
+  let has := fun (x : Str) => ir.mil.any (fun m => m = x)
+  { checks := ir.mil.any (fun m => containsSub (L "FacilitiesCheck(") m),
+    cloneSet := has (L "m_locator(std::move(FacilitiesCheck(prototypeLocator).clone().set(m_runtime).set(m_dispatcher)))"),
+    encOwn := has (L "m_encapsulee(m_locator)"),
+    encProto := has (L "m_encapsulee(locator)"),
+    dispFromLocator := has (L "m_dispatcher(FacilitiesCheck(locator).get<dzn::pump>())") }
+
+/-- the exception the member initialisation throws, if any: `FacilitiesCheck` runs only when an
+    initialiser calls it -/
+def ctorCheck (ir : ShellIR) (pump runtime : Bool) : Option Exc :=
+  if (milFacts ir).checks then facilitiesCheck ir.origin ir.structName pump runtime else none
+
+/-- the facilities after member initialisation (declaration order m_runtime, m_dispatcher,
+    m_locator, m_encapsulee), as the member-initialiser list of the IR establishes them -/
+def facInfo (ir : ShellIR) (pump runtime extra : Bool) : FacInfo :=
   let n := (if pump then 1 else 0) + (if runtime then 1 else 0) + (if extra then 1 else 0)
-  match o with
-  | .create =>
+  let f := milFacts ir
+  let acc := decide (ir.origin = .create)
+  if f.cloneSet && f.encOwn then
     -- m_locator = prototype.clone().set(m_runtime).set(m_dispatcher); m_encapsulee(m_locator)
     { compLocatorIsProto := false, compPump := .own, compRuntime := .own, compExtra := extra, dispatcher := .own,
-      hasLocatorAccessor := true, protoKeysBefore := n, protoKeysAfter := n }
-  | .import_ =>
-    -- m_dispatcher = locator.get<dzn::pump>(); m_encapsulee(locator)
+      hasLocatorAccessor := acc, protoKeysBefore := n, protoKeysAfter := n }
+  else if f.encProto then
+    -- m_encapsulee(locator): the component is handed the user's locator object itself
     { compLocatorIsProto := true, compPump := if pump then .proto else .absent,
-      compRuntime := if runtime then .proto else .absent, compExtra := extra, dispatcher := .proto,
-      hasLocatorAccessor := false, protoKeysBefore := n, protoKeysAfter := n }
+      compRuntime := if runtime then .proto else .absent, compExtra := extra,
+      dispatcher := if f.dispFromLocator then .proto else .absent,
+      hasLocatorAccessor := acc, protoKeysBefore := n, protoKeysAfter := n }
+  else
+    { compLocatorIsProto := false, compPump := .absent, compRuntime := .absent, compExtra := false, dispatcher := .absent,
+      hasLocatorAccessor := acc, protoKeysBefore := n, protoKeysAfter := n }
 
 /-- `FacilitiesCheck` + member initialisation + constructor body -/
 def construct (ir : ShellIR) (allPorts : List (Port × InterfaceD)) (grantIndex : Option Nat)
     (pump runtime : Bool) (skip : Option (Str × EvDir × Str)) (name : Str) (extra : Bool := false) :
     Except Exc World :=
-  match facilitiesCheck ir.origin ir.structName pump runtime with
+  match ctorCheck ir pump runtime with
   | some e => .error e          -- thrown while initialising the first facility member: no component yet
   | none =>
     let w0 : World := { ir, allPorts, grantIndex, instName := name, protoPump := pump,
-                        fac := facInfo ir.origin pump runtime extra }
+                        fac := facInfo ir pump runtime extra }
     let w := compBind w0 skip
     let w := { w with selectors := (ir.provides.filter (·.isMc)).map (fun p => { mv := p.target, port := p.name }) }
     .ok (runAssigns w ir.ctorAssigns [] [] none)
